@@ -8,10 +8,8 @@ Full strength (defects repaired in /repo): `moves_down_when_possible`, `result_f
 `abs_replaced` / `abs_centred_v` (F13, F14); `abs_equation_h`, `abs_equation_v`, `abs_replaced` for every auto
 pattern (7752e9b: an auto margin takes what the other margin leaves); `float_rules` for every float, an empty
 border box included (50ab141).
-Stated with an explicit hypothesis because the current code violates the full statement
-(witnesses in `Witness/C11.lean`, findings in known_findings.txt):
-  * `float_no_overlap`, `float_place_invariants`, `all_floats_disjoint_and_ordered`
-    (`border_height ≠ 0`: a float with an empty border box is placed without looking at the other floats).
+`float_no_overlap`, `float_place_invariants`, `all_floats_disjoint_and_ordered` no longer need a non-empty border
+box (1bc67ce: the early return of `avoid_collisions` is gone; `GoodFloat` only asks for a margin box with area).
 Document-level model (`Model/FloatFlow.lean`): `cleared_top_spec` (clearance is added to the collapsed
 position), `inline_waiting_is_suffix`, `inline_placed_is_prefix` (a float met in a line after a deferred
 float is deferred too).  Floats met inside lines keep the position `float_layout` gave them (330f66c);
@@ -78,17 +76,15 @@ theorem avoid_never_loops (shapes : List Shape) (b : ABox) (cb : CB) (outer : Bo
   unfold avoidCollisions
   simp only
   split
-  · simp
+  · rename_i hn
+    have := avoid_terminates shapes (if outer then b.marginWidth else b.bw)
+      (if outer then b.marginHeight else b.bh) (if outer then cb.cx else cb.cx + b.ml)
+      (if outer then cb.cx + cb.w else cb.cx + cb.w - b.mr) (if outer then b.py else b.py + b.mt)
+    rw [hn] at this
+    simp at this
   · split
-    · rename_i hn
-      have := avoid_terminates shapes (if outer then b.marginWidth else b.bw)
-        (if outer then b.marginHeight else b.bh) (if outer then cb.cx else cb.cx + b.ml)
-        (if outer then cb.cx + cb.w else cb.cx + cb.w - b.mr) (if outer then b.py else b.py + b.mt)
-      rw [hn] at this
-      simp at this
-    · split
-      · simp
-      · split <;> simp
+    · simp
+    · split <;> simp
 
 /-- Interior intersection of the rectangle `(x, y, w, h)` with the margin box of a shape. -/
 def Overlaps (x y w h : Rat) (s : Shape) : Prop :=
@@ -287,9 +283,9 @@ example : avoidLoop 2 [⟨0, 0, 80, 50, .left⟩] 50 10 0 100 0 = some ⟨50, 0,
 
 /-! ## `avoid_collisions` on any box (line boxes, BFC roots, replaced blocks, table wrappers, floats) -/
 
-/-- What `avoid_collisions` returns for any box that passes the early return and the class assertion. -/
-theorem avoid_collisions_spec (shapes : List Shape) (b : ABox) (cb : CB) (outer : Bool) (p : Placement)
-    (hz : ¬ (b.bh = 0 ∧ b.float ≠ .none))
+/-- What `avoid_collisions` returns for any box that passes the class assertion (every box: the early return for
+floats with an empty border box is gone, 1bc67ce). -/
+theorem avoid_collisions_result (shapes : List Shape) (b : ABox) (cb : CB) (outer : Bool) (p : Placement)
     (h : avoidCollisions shapes b cb outer = .ok p) :
     ∃ res, avoidLoop (shapes.length + 1) shapes (if outer then b.marginWidth else b.bw)
         (if outer then b.marginHeight else b.bh) (if outer then cb.cx else cb.cx + b.ml)
@@ -301,11 +297,7 @@ theorem avoid_collisions_spec (shapes : List Shape) (b : ABox) (cb : CB) (outer 
           (if b.kind = .line then res.r else res.r - (if outer then b.marginWidth else b.bw))
          else res.l) := by
   unfold avoidCollisions at h
-  have h1 : ¬ ((decide (b.bh = 0) && b.isFloated) = true) := by
-    simp [ABox.isFloated]; intro h0; by_cases hf : b.float = .none
-    · exact hf
-    · exact absurd ⟨h0, hf⟩ hz
-  simp only [if_neg h1] at h
+  simp only at h
   split at h
   · simp at h
   · rename_i res hres
@@ -316,6 +308,22 @@ theorem avoid_collisions_spec (shapes : List Shape) (b : ABox) (cb : CB) (outer 
       · cases hk : b.kind <;> simp <;> grind
       · cases hk : b.kind <;> simp
 
+/-- `avoid_collisions_result` under its former name and signature (the hypothesis excluded the early return that
+no longer exists; kept because `Lemmas/LineFloats.lean` of C09 passes it). -/
+theorem avoid_collisions_spec (shapes : List Shape) (b : ABox) (cb : CB) (outer : Bool) (p : Placement)
+    (_hz : ¬ (b.bh = 0 ∧ b.float ≠ .none))
+    (h : avoidCollisions shapes b cb outer = .ok p) :
+    ∃ res, avoidLoop (shapes.length + 1) shapes (if outer then b.marginWidth else b.bw)
+        (if outer then b.marginHeight else b.bh) (if outer then cb.cx else cb.cx + b.ml)
+        (if outer then cb.cx + cb.w else cb.cx + cb.w - b.mr) (if outer then b.py else b.py + b.mt) = some res ∧
+      p.avail = res.r - res.l ∧
+      (if outer then p.y else p.y + b.mt) = res.y ∧
+      (if outer then p.x else p.x + b.ml) =
+        (if b.float = .none ∧ cb.rtl = true then
+          (if b.kind = .line then res.r else res.r - (if outer then b.marginWidth else b.bw))
+         else res.l) :=
+  avoid_collisions_result shapes b cb outer p h
+
 /-- **Boxes that may not overlap floats** (line boxes, table wrappers, block-level replaced boxes,
 formatting-context roots — and floats themselves): when the box fits in the available width that
 `avoid_collisions` returns, its rectangle (border box for `outer=False`, margin box for
@@ -323,7 +331,6 @@ formatting-context roots — and floats themselves): when the box fits in the av
 float, lies between the containing block's edges (shrunk by the box's own margins for
 `outer=False`) and is not above the requested position. -/
 theorem placed_box_no_overlap (shapes : List Shape) (b : ABox) (cb : CB) (outer : Bool) (p : Placement)
-    (hz : ¬ (b.bh = 0 ∧ b.float ≠ .none))
     (h : avoidCollisions shapes b cb outer = .ok p)
     (hh : 0 < (if outer then b.marginHeight else b.bh)) (hp : Proper shapes)
     (hfit : (if outer then b.marginWidth else b.bw) ≤ p.avail) :
@@ -337,7 +344,7 @@ theorem placed_box_no_overlap (shapes : List Shape) (b : ABox) (cb : CB) (outer 
     left + w ≤ (if outer then cb.cx + cb.w else cb.cx + cb.w - b.mr) ∧
     (if outer then b.py else b.py + b.mt) ≤ top := by
   intro w ht bx top left
-  obtain ⟨res, hres, h1, h2, h3⟩ := avoid_collisions_spec shapes b cb outer p hz h
+  obtain ⟨res, hres, h1, h2, h3⟩ := avoid_collisions_result shapes b cb outer p h
   have hx : res.l ≤ left ∧ left + w ≤ res.r := by
     simp only [left, bx, w] at *
     by_cases c1 : b.float = .none ∧ cb.rtl = true
@@ -481,24 +488,23 @@ example : getClearance [⟨0, 0, 10, 30, .left⟩, ⟨90, 0, 10, 50, .right⟩] 
 
 /-! ## `find_float_position`: the float rules -/
 
-/-- What `find_float_position` computes, for a float whose border box is not empty: the loop is run
+/-- What `find_float_position` computes, for every float: the loop is run
 on the margin box from `max(static y, top of the last float)`; a left float sits at the left
 bound, a right float ends at the right bound. -/
 theorem float_position_spec (shapes : List Shape) (b : ABox) (cb : CB) (x y : Rat)
-    (hf : b.float ≠ .none) (hz : b.bh ≠ 0)
+    (hf : b.float ≠ .none)
     (h : findFloatPosition shapes b cb = .ok (x, y)) :
     ∃ res y0, avoidLoop (shapes.length + 1) shapes b.marginWidth b.marginHeight cb.cx (cb.cx + cb.w) y0 = some res ∧
       b.py ≤ y0 ∧ (∀ s, shapes.getLast? = some s → s.y ≤ y0) ∧ y = res.y ∧
       (b.float = .left → x = res.l) ∧ (b.float = .right → x + b.marginWidth = res.r) := by
   obtain ⟨y0, p, h1, h2, h3, h4, h5⟩ := findFloatPosition_ok shapes b cb x y h
-  obtain ⟨res, hres, hp⟩ := avoidCollisions_float shapes { b with py := y0 } cb p hf hz h3
+  obtain ⟨res, hres, hp⟩ := avoidCollisions_float shapes { b with py := y0 } cb p hf h3
   refine ⟨res, y0, hres, h1, h2, by rw [h4, hp], ?_, ?_⟩
   · intro hl; rw [h5, hp]; simp [hl]
   · intro hr; rw [h5, hp]; simp [hr]; grind
 
-/-- **Float rules** (CSS 2.1 §9.5.1), for every float (a float whose border box has height 0 included: since
-50ab141 it stays at its static position against the edge of its containing block; before, it went to the page
-origin):
+/-- **Float rules** (CSS 2.1 §9.5.1), for every float (a float whose border box has height 0 is placed like any
+other float since 1bc67ce):
 rule 4 — its top is not above its static position; rules 5/6 — not above the top of the float
 placed just before it; rules 1/2/7 — when it fits next to the floats it collides with, a left float
 starts at the containing block's left edge or at the right edge of a colliding left float, ends
@@ -513,18 +519,7 @@ theorem float_rules (shapes : List Shape) (b : ABox) (cb : CB) (x y : Rat)
     (b.float = .right → x + b.marginWidth ≤ cb.cx + cb.w ∧
       (x + b.marginWidth = cb.cx + cb.w ∨
         ∃ s ∈ shapes, s.side = .right ∧ collides s y b.marginHeight = true ∧ s.x = x + b.marginWidth)) := by
-  by_cases hz : b.bh = 0
-  · -- the early return of `avoid_collisions`
-    obtain ⟨y0, p, h1, h2, h3, h4, h5⟩ := findFloatPosition_ok shapes b cb x y h
-    rw [avoidCollisions_zero_float shapes { b with py := y0 } cb true hf hz] at h3
-    simp only [Except.ok.injEq, if_true] at h3
-    subst h3
-    simp only at h4 h5
-    subst h4
-    refine ⟨h1, h2, ?_, ?_⟩
-    · intro hl; simp [hl] at h5; subst h5; exact ⟨Rat.le_refl, Or.inl rfl⟩
-    · intro hr; simp [hr] at h5; subst h5; exact ⟨by grind, Or.inl (by grind)⟩
-  obtain ⟨res, y0, hres, h1, h2, h3, h4, h5⟩ := float_position_spec shapes b cb x y hf hz h
+  obtain ⟨res, y0, hres, h1, h2, h3, h4, h5⟩ := float_position_spec shapes b cb x y hf h
   obtain ⟨hy, hl0, hr0⟩ := avoid_result_bounds _ shapes _ _ _ _ y0 res hres
   obtain ⟨_, hl, hr, _⟩ := avoidLoop_induct (fun _ => True) shapes b.marginWidth b.marginHeight cb.cx (cb.cx + cb.w)
     (fun _ _ _ _ _ _ => trivial) _ y0 res trivial hres
@@ -547,51 +542,20 @@ theorem float_rules (shapes : List Shape) (b : ABox) (cb : CB) (x y : Rat)
       obtain ⟨hs1, hs2⟩ := mem_colliding.mp hs
       exact ⟨s, hs1, hside, hs2, by grind⟩
 
-/-- **A float with an empty border box** (`height: 0`, no vertical paddings or borders) is kept at
-`max(static y, top of the last float)` against the edge of its containing block on its side — inside the containing
-block whenever its margin box is not wider than it. -/
-theorem zero_height_float_stays (shapes : List Shape) (b : ABox) (cb : CB) (x y : Rat)
-    (hf : b.float ≠ .none) (hz : b.bh = 0) (h : findFloatPosition shapes b cb = .ok (x, y)) :
-    (y = b.py ∨ ∃ s, shapes.getLast? = some s ∧ y = s.y) ∧
-    (b.float = .left → x = cb.cx) ∧ (b.float = .right → x + b.marginWidth = cb.cx + cb.w) ∧
-    (b.marginWidth ≤ cb.w → cb.cx ≤ x ∧ x + b.marginWidth ≤ cb.cx + cb.w) := by
-  rcases b with ⟨bpx, bpy, bmt, bmb, bml, bmr, bbw, bbh, bfl, bcl, bk⟩
-  simp only at hf hz
-  subst hz
-  unfold findFloatPosition at h
-  simp only at h
-  rw [avoidCollisions_zero_float shapes _ cb true (by simpa using hf) rfl] at h
-  simp only [Except.ok.injEq, Prod.mk.injEq, if_true] at h
-  obtain ⟨hx, hy⟩ := h
-  have hside : bfl = .left ∨ bfl = .right := by cases bfl <;> simp_all
-  refine ⟨?_, ?_, ?_, ?_⟩
-  · rw [← hy]
-    cases hl : shapes.getLast? with
-    | none => left; rfl
-    | some s =>
-      simp only
-      by_cases hlt : bpy < s.y
-      · right; exact ⟨s, rfl, by simp [hlt]⟩
-      · left; simp [hlt]
-  · intro hl; simp only at hl; rw [← hx]; simp [hl]
-  · intro hr; simp only at hr; rw [← hx]; simp [hr]; grind
-  · intro hw
-    rcases hside with hl | hr
-    · rw [← hx]; simp [hl]; simp [ABox.marginWidth] at hw ⊢; grind
-    · rw [← hx]; simp [hr]; simp [ABox.marginWidth] at hw ⊢; grind
-
+/-- A float with an empty border box (margin box 20×10) is placed by the same loop. -/
 example : (findFloatPosition [⟨50, 40, 20, 20, .left⟩] ⟨70, 70, 5, 5, 5, 5, 10, 0, .right, .none, .bfc⟩
     ⟨50, 100, false⟩).toOption = some (130, 70) := by decide +kernel
 
-/-- **A placed float never overlaps an earlier float** (all with area), whether or not it fits in
-the containing block; and when it fits between the bounds it is inside the containing block. -/
+/-- **A placed float never overlaps an earlier float** (all with area; the border box of the float itself may be
+empty, 1bc67ce), whether or not it fits in the containing block; and when it fits between the bounds it is inside
+the containing block. -/
 theorem float_no_overlap (shapes : List Shape) (b : ABox) (cb : CB) (x y : Rat)
-    (hf : b.float ≠ .none) (hz : b.bh ≠ 0) (hmh : 0 < b.marginHeight)
+    (hf : b.float ≠ .none) (hmh : 0 < b.marginHeight)
     (hp : Proper shapes) (h : findFloatPosition shapes b cb = .ok (x, y)) :
     (∀ s ∈ shapes, ¬ Overlaps x y b.marginWidth b.marginHeight s) ∧
     (b.marginWidth ≤ cb.w → colliding shapes y b.marginHeight = [] ∨
       (cb.cx ≤ x ∧ x + b.marginWidth ≤ cb.cx + cb.w)) := by
-  obtain ⟨res, y0, hres, h1, h2, h3, h4, h5⟩ := float_position_spec shapes b cb x y hf hz h
+  obtain ⟨res, y0, hres, h1, h2, h3, h4, h5⟩ := float_position_spec shapes b cb x y hf h
   subst h3
   have hside : b.float = .left ∨ b.float = .right := by
     cases hb : b.float <;> simp_all
@@ -642,11 +606,11 @@ private theorem sorted_last (shapes : List Shape) (hs : SortedTops shapes) (l : 
         exact hs.1 l hmem
       · exact ih hs.2 hl' s h
 
-/-- One step of `float_layout`'s placement keeps the context well formed: the new float (non-empty
-border box, positive margin-box height, non-negative margin-box width) is not above any earlier
+/-- One step of `float_layout`'s placement keeps the context well formed: the new float (positive margin-box
+height, non-negative margin-box width) is not above any earlier
 float, overlaps none of them, and is below every float its `clear` names. -/
 theorem float_place_invariants (shapes : List Shape) (b : ABox) (cb : CB) (b' : ABox) (shapes' : List Shape)
-    (hf : b.float ≠ .none) (hz : b.bh ≠ 0) (hmh : 0 < b.marginHeight) (hmw : 0 ≤ b.marginWidth)
+    (hf : b.float ≠ .none) (hmh : 0 < b.marginHeight) (hmw : 0 ≤ b.marginWidth)
     (hp : Proper shapes) (hs : SortedTops shapes) (hd : PairwiseDisjoint shapes)
     (h : floatPlace shapes b cb = .ok (b', shapes')) :
     Proper shapes' ∧ SortedTops shapes' ∧ PairwiseDisjoint shapes' ∧
@@ -670,10 +634,9 @@ theorem float_place_invariants (shapes : List Shape) (b : ABox) (cb : CB) (b' : 
       have := this s hs hn
       grind
   have hf1 : (afterClearance shapes b).float ≠ .none := by rw [f1]; exact hf
-  have hz1 : (afterClearance shapes b).bh ≠ 0 := by rw [f2]; exact hz
   have hmh1 : 0 < (afterClearance shapes b).marginHeight := by rw [f3]; exact hmh
   obtain ⟨r1, r2, _, _⟩ := float_rules shapes _ cb x y hf1 hpos
-  obtain ⟨hno, _⟩ := float_no_overlap shapes _ cb x y hf1 hz1 hmh1 hp hpos
+  obtain ⟨hno, _⟩ := float_no_overlap shapes _ cb x y hf1 hmh1 hp hpos
   rw [f3, f4] at hno
   subst hsh
   subst hb'
@@ -712,10 +675,10 @@ def placeAll (cb : CB) : List Shape → List ABox → Except PyErr (List Shape)
     | .error e => .error e
     | .ok (_, shapes') => placeAll cb shapes' bs
 
-/-- A float the placement rules are about: it floats, has a non-empty border box and a margin box
-with positive height and non-negative width. -/
+/-- A float the placement rules are about: it floats and has a margin box with positive height and non-negative
+width (its border box may be empty). -/
 def GoodFloat (b : ABox) : Prop :=
-  b.float ≠ .none ∧ b.bh ≠ 0 ∧ 0 < b.marginHeight ∧ 0 ≤ b.marginWidth
+  b.float ≠ .none ∧ 0 < b.marginHeight ∧ 0 ≤ b.marginWidth
 
 /-- **Every arrangement**: whatever the sizes, margins, sides, `clear` values and static positions of
 a sequence of floats, after placing all of them no two floats of the context overlap and their
@@ -732,8 +695,8 @@ theorem all_floats_disjoint_and_ordered (cb : CB) (bs : List ABox) (shapes shape
     split at h
     · simp at h
     · rename_i b' sh1 hpl
-      obtain ⟨g1, g2, g3, g4⟩ := hb b (by simp)
-      obtain ⟨i1, i2, i3, _, _⟩ := float_place_invariants shapes b cb b' sh1 g1 g2 g3 g4 hp hs hd hpl
+      obtain ⟨g1, g3, g4⟩ := hb b (by simp)
+      obtain ⟨i1, i2, i3, _, _⟩ := float_place_invariants shapes b cb b' sh1 g1 g3 g4 hp hs hd hpl
       exact ih sh1 (fun b hb' => hb b (by simp [hb'])) i1 i2 i3 h
 
 example : (placeAll ⟨0, 100, false⟩ []
@@ -1049,6 +1012,33 @@ theorem fixed_same (st : AbsStyle) (page1 page2 : CBBox) (ltr : Bool) (sx sy min
     absoluteBlock st (containingRect page2) ltr sx sy minC maxC hw hn := by
   rw [h]
 
+/-- The used height of a box lies between its `min-height` and (when that is not below `min-height`) its
+`max-height`, and is the content height when that satisfies both. -/
+theorem cb_used_height (c : CBHeights) :
+    c.minH ≤ c.used ∧ (∀ m, c.maxH = some m → c.minH ≤ m → c.used ≤ m) ∧
+    (c.minH ≤ c.content → (∀ m, c.maxH = some m → c.content ≤ m) → c.used = c.content) := by
+  rcases c with ⟨h, mn, mx⟩
+  cases mx <;> simp [CBHeights.used] <;> grind
+
+/-- **The containing block of the absolute children of an absolutely positioned box is its final padding box**:
+they are laid out after `block_container_layout` has clamped the height. -/
+theorem cb_height_of_absolute_box (c : CBHeights) : cbHeightAtLayout false c = c.used := rfl
+
+/-
+Full statement (false of the current code, see `Witness.C11.abs_cb_height_before_min_max`):
+  theorem cb_height_of_relative_box (c : CBHeights) : cbHeightAtLayout true c = c.used
+-/
+/-- … and of a relatively positioned box too, when `min-height` / `max-height` do not change its height (they
+are applied after its absolute children were laid out). -/
+theorem cb_height_of_relative_box_partial (c : CBHeights)
+    (h1 : c.minH ≤ c.content) (h2 : ∀ m, c.maxH = some m → c.content ≤ m) :
+    cbHeightAtLayout true c = c.used := by
+  simp only [cbHeightAtLayout, if_true]
+  exact ((cb_used_height c).2.2 h1 h2).symm
+
+example : cbHeightAtLayout true ⟨80, 50, some 120⟩ = 80 ∧ (⟨80, 50, some 120⟩ : CBHeights).used = 80 ∧
+    cbHeightAtLayout false ⟨80, 100, none⟩ = 100 := by decide +kernel
+
 end Absolute
 
 /-! ## `absolute_replaced` -/
@@ -1251,47 +1241,47 @@ theorem cleared_top_spec (shapes : List Shape) (c : Clear) (y cm : Rat) :
 example : (clearedTop [⟨0, 0, 50, 54, .left⟩] .left 10 30).1 = 54 ∧
     (clearedTop [⟨0, 0, 50, 54, .left⟩] .left 10 45).1 = 55 := by decide +kernel
 
-/-- Once a float of a line waits, every later float of the line waits too, and neither float list changes. -/
-theorem inline_waiting_is_suffix (cb : CB) (lineY : Rat) (attr top : List Shape) (rem : Rat) (bs : List ABox)
-    (attr' top' : List Shape) (out : List (ABox × Option (Rat × Rat × Rat × Rat)))
-    (h : inlinePass1 cb lineY attr top rem true bs = .ok (attr', top', out)) :
-    attr' = attr ∧ top' = top ∧ ∀ e ∈ out, e.2 = none := by
-  induction bs generalizing out attr' top' with
-  | nil => simp [inlinePass1] at h; exact ⟨h.1.symm, h.2.1.symm, by rw [h.2.2]; simp⟩
+/-- Once a float of a line waits, every later float of the line waits too, and the float list does not change. -/
+theorem inline_waiting_is_suffix (cb : CB) (lineY : Rat) (shapes : List Shape) (rem : Rat) (bs : List ABox)
+    (shapes' : List Shape) (out : List (ABox × Option (Rat × Rat × Rat × Rat)))
+    (h : inlinePass1 cb lineY shapes rem true bs = .ok (shapes', out)) :
+    shapes' = shapes ∧ ∀ e ∈ out, e.2 = none := by
+  induction bs generalizing out shapes' with
+  | nil => simp [inlinePass1] at h; exact ⟨h.1.symm, by rw [h.2]; simp⟩
   | cons b rest ih =>
     simp only [inlinePass1, Bool.or_true, if_true] at h
     split at h
     · simp at h
-    · rename_i a t o hrec
+    · rename_i sh o hrec
       simp only [Except.ok.injEq, Prod.mk.injEq] at h
-      obtain ⟨i1, i2, i3⟩ := ih a t o hrec
-      refine ⟨by rw [← h.1]; exact i1, by rw [← h.2.1]; exact i2, ?_⟩
-      rw [← h.2.2]
+      obtain ⟨i1, i2⟩ := ih sh o hrec
+      refine ⟨by rw [← h.1]; exact i1, ?_⟩
+      rw [← h.2]
       intro e he
       rcases List.mem_cons.mp he with he | he
       · rw [he]
-      · exact i3 e he
+      · exact i2 e he
 
 /-- **A float met in a line is never placed above an earlier float of the same line**: the floats laid
 out on the line form a prefix of the line's floats, everything after the
 first deferred float is deferred (and is then laid out from the line's bottom). -/
-theorem inline_placed_is_prefix (cb : CB) (lineY : Rat) (attr top : List Shape) (rem : Rat) (bs : List ABox)
-    (attr' top' : List Shape) (out : List (ABox × Option (Rat × Rat × Rat × Rat)))
-    (h : inlinePass1 cb lineY attr top rem false bs = .ok (attr', top', out)) :
+theorem inline_placed_is_prefix (cb : CB) (lineY : Rat) (shapes : List Shape) (rem : Rat) (bs : List ABox)
+    (shapes' : List Shape) (out : List (ABox × Option (Rat × Rat × Rat × Rat)))
+    (h : inlinePass1 cb lineY shapes rem false bs = .ok (shapes', out)) :
     ∃ n, (∀ e ∈ out.take n, e.2.isSome = true) ∧ (∀ e ∈ out.drop n, e.2 = none) := by
-  induction bs generalizing attr top attr' top' rem out with
-  | nil => simp [inlinePass1] at h; exact ⟨0, by simp, by rw [h.2.2]; simp⟩
+  induction bs generalizing shapes shapes' rem out with
+  | nil => simp [inlinePass1] at h; exact ⟨0, by simp, by rw [h.2]; simp⟩
   | cons b rest ih =>
     simp only [inlinePass1, Bool.or_false] at h
     split at h
     · -- this float waits: everything after it waits
       split at h
       · simp at h
-      · rename_i a t o hrec
+      · rename_i sh o hrec
         simp only [Except.ok.injEq, Prod.mk.injEq] at h
-        obtain ⟨_, _, i2⟩ := inline_waiting_is_suffix cb lineY attr top rem rest a t o hrec
+        obtain ⟨_, i2⟩ := inline_waiting_is_suffix cb lineY shapes rem rest sh o hrec
         refine ⟨0, by simp, ?_⟩
-        rw [← h.2.2]
+        rw [← h.2]
         intro e he
         simp at he
         rcases he with he | he
@@ -1302,17 +1292,17 @@ theorem inline_placed_is_prefix (cb : CB) (lineY : Rat) (attr top : List Shape) 
       · rename_i b' sh1 hpl
         split at h
         · simp at h
-        · rename_i a t o hrec
+        · rename_i sh o hrec
           simp only [Except.ok.injEq, Prod.mk.injEq] at h
-          obtain ⟨n, j1, j2⟩ := ih sh1 sh1 _ a t o hrec
+          obtain ⟨n, j1, j2⟩ := ih sh1 _ sh o hrec
           refine ⟨n + 1, ?_, ?_⟩
-          · rw [← h.2.2]
+          · rw [← h.2]
             intro e he
             simp at he
             rcases he with he | he
             · rw [he]; rfl
             · exact j1 e he
-          · rw [← h.2.2]; simpa using j2
+          · rw [← h.2]; simpa using j2
 
 
 end Wp.C11
